@@ -56,17 +56,22 @@ def run(eng, R):
     f = get_func(p, "CostFunction", "goodness_of_fit")
     check(eng, R, "H-gof", "CostFunction", "goodness_of_fit", "return", "self(*args_with_zero_det) - self._cost_function_handle(*args_saturated)",
           rename=None, what="gof = cost - saturated cost") if False else None
-    rs = [r for r in return_exprs(f.node) if r[1] is not None and not (isinstance(r[1], ast.Constant) and r[1].value is None)]
-    ok = len(rs) == 1 and isinstance(rs[0][1], ast.BinOp) and isinstance(rs[0][1].op, ast.Sub) and ast.unparse(rs[0][1]) == "_cost - _saturated_cost"
-    R.ob("H-gof", "CostFunction.goodness_of_fit:difference", ok, (f.file, f.lineno), "goodness_of_fit must return cost - saturated cost")
-    src = ast.unparse(f.node)
-    R.ob("H-gof", "CostFunction.goodness_of_fit:saturated", "args[_index_model] = args[_index_data]" in src and "_saturated_cost = self._cost_function_handle(*args)" in src, (f.file, f.lineno),
+    src = eng.csrc(f)
+    # placeholders: `_c` the cost, `_a` the argument tuple it is evaluated at, `_b` the argument list of the saturated evaluation (may be the same name as `_a`,
+    # rebound), `_id` / `_im` the positions of data and model
+    DIFF = [["_c = self(*_a)", "return _c - self._cost_function_handle(*_b)"], ["_c = self(*_a)", "_s = self._cost_function_handle(*_b)", "return _c - _s"],
+            ["_c = self(*_a)", "return _c - self._cost_function_handle(*_a)"], ["_c = self(*_a)", "_s = self._cost_function_handle(*_a)", "return _c - _s"]]
+    R.ob("H-gof", "CostFunction.goodness_of_fit:difference", common.like_any(src, *DIFF), (f.file, f.lineno), "goodness_of_fit must return cost - saturated cost")
+    IDX = ["_id = self._arg_names.index(self._DATA_NAME)", "_im = self._arg_names.index(self._MODEL_NAME)"]
+    SAT = [IDX + ["_b[_im] = _b[_id]", "self._cost_function_handle(*_b)"]]
+    R.ob("H-gof", "CostFunction.goodness_of_fit:saturated", common.like_any(src, *SAT), (f.file, f.lineno),
          "the saturated cost must be the cost handle evaluated with the model argument replaced by the data")
-    R.ob("H-gof", "CostFunction.goodness_of_fit:indices", "_index_data = self._arg_names.index(self._DATA_NAME)" in src and "_index_model = self._arg_names.index(self._MODEL_NAME)" in src, (f.file, f.lineno),
-         "data/model positions must be looked up by the cost function's own data/model names")
-    R.ob("H-gof", "CostFunction.goodness_of_fit:cost", "_cost = self(*args)" in src, (f.file, f.lineno), "the cost term of the gof must be the full cost (constraints included)")
+    R.ob("H-gof", "CostFunction.goodness_of_fit:indices", common.like_any(src, IDX), (f.file, f.lineno), "data/model positions must be looked up by the cost function's own data/model names")
+    s0 = common.Src(str(src))
+    R.ob("H-gof", "CostFunction.goodness_of_fit:cost", s0.like("_c = self(*_a)"), (f.file, f.lineno), "the cost term of the gof must be the full cost (constraints included)")
+    cost_name = s0._binding.get("_c", "_cost")
     g = eng.cfg(f)
-    costs = [n for n in g.stmt_nodes() if n.kind == "stmt" and isinstance(n.stmt, ast.Assign) and ast.unparse(n.stmt.targets[0]) == "_cost"]
+    costs = [n for n in g.stmt_nodes() if n.kind == "stmt" and isinstance(n.stmt, ast.Assign) and ast.unparse(n.stmt.targets[0]) == cost_name]
     zero = [n for n in g.nodes if n.kind == "test" and isinstance(n.stmt, ast.If) and self_attr(n.stmt.test) == "_add_determinant_cost"
             and any(isinstance(a, ast.Assign) and "args[:-1] + (0.0,)" in ast.unparse(a) for a in n.stmt.body)]
     ok = bool(costs) and bool(zero) and all(g.dominated_by(c.id, lambda m: m.id in {z.id for z in zero})[0] for c in costs)
@@ -111,12 +116,14 @@ def run(eng, R):
 
     R.ob("H-gof", "MultiFit.goodness_of_fit:own constraints", adds_constraints(ast.Module(body=mg.node.body, type_ignores=[]), "self"), (mg.file, mg.lineno),
          "the goodness of fit of a MultiFit must contain the cost of the constraints added to the MultiFit (the cost, ndf and probability count them)")
+    # the branch of the member loop taken for chi2 members under shared errors (written as `if shared and chi2: ... continue` or as if/else)
     skips = [i for i in ast.walk(mg.node) if isinstance(i, ast.If) and "_shared_error_nodes_initialized" in ast.unparse(i.test) and "is_chi2" in ast.unparse(i.test)
-             and i.body and isinstance(i.body[-1], ast.Continue)]
+             and i.body and (isinstance(i.body[-1], ast.Continue) or i.orelse)]
     okc = len(skips) == 1
     if okc:
         lp = [l for l in ast.walk(mg.node) if isinstance(l, ast.For) and skips[0] in l.body]
-        okc = bool(lp) and isinstance(lp[0].target, ast.Name) and adds_constraints(ast.Module(body=skips[0].body, type_ignores=[]), lp[0].target.id)
+        okc = bool(lp) and isinstance(lp[0].target, ast.Name) and adds_constraints(ast.Module(body=skips[0].body, type_ignores=[]), lp[0].target.id) \
+            and not any(isinstance(x, ast.Attribute) and x.attr == "goodness_of_fit" for st_ in skips[0].body for x in ast.walk(st_))
     R.ob("H-gof", "MultiFit.goodness_of_fit:member constraints with shared errors", okc, (mg.file, mg.lineno),
          "members whose residuals are covered by the shared cost function must still contribute the cost of their own parameter constraints")
     cs = get_func(p, "MultiCostFunction", "cost_sum")
